@@ -55,7 +55,7 @@ func allOps(f string) []string {
 func cheapOps(f string) []string {
 	switch f {
 	case "pdf":
-		return []string{"x.text", "x.chunks", "pdf.reader", "pdf.objects"}
+		return []string{"x.text", "x.chunks", "x.text.preserve", "pdf.reader", "pdf.objects"}
 	case "html":
 		return []string{"x.text", "html.string", "x.document"}
 	}
